@@ -64,9 +64,14 @@ def chunks(strings, n, limit=None, rng=None):
     return res
 
 
+MULTIWORD = ['order  by', 'group\n by', 'end\r\nif', 'end  loop', 'union\tall', 'left  join', 'not\nnull', 'create or\nreplace', 'nulls  first',
+             'GO 2', 'double  precision', 'not  like', 'primary\tkey']
+
+
 def adversarial(n, count, rng, extra=()):
     frag = FRAGS + list(extra)
-    out = []
+    out = [m[:n] for m in MULTIWORD] + ['x ' + m[:max(0, n - 4)] + ' y' for m in MULTIWORD]
+    out = [o for o in out if len(o) <= n]
     for _ in range(count):
         s = ''
         while len(s) < n and rng.random() < 0.93:
